@@ -112,20 +112,22 @@ Proof. intros E Hcut pkt st HP. unfold acc_add. rewrite HP. cbn [a_buf].
   - rewrite (app_eq_over _ _ _ _ E Ge) at 1. rewrite unit_stuffed, (done_complete _ (wf_with _)). cbn [bind]. reflexivity.
 Qed.
 
+(* tl: whatever follows in the stream is never looked at *)
+Variable tl : list bytes.
 Lemma read_pkts_ok : forall rest first a A,
   Forall (wf_item pid) rest ->
   ((first = true /\ a = new_acc /\ A = []) \/ (first = false /\ a = {| a_buf := A; a_state := 1 |})) ->
   (exists n, A ++ concat (chunks rest) = U ++ repeatN 255 n) ->
   len A < len U ->
   (forall j, let k := len A + len (concat (chunks (firstn j rest))) in k < len U -> ~ inner_end c k) ->
-  read_pkts (ser_items pid first rest) pid a = Ok (sec_result (sec c)).
+  read_pkts (ser_items pid first rest ++ tl) pid a = Ok (sec_result (sec c)).
 Proof.
   induction rest as [|it rest IH]; intros first a A WI ST (n & EQ) LA CUT.
   - cbn [chunks concat] in EQ. rewrite app_nil_r in EQ. exfalso.
     assert (len A = len (U ++ repeatN 255 n)) by (rewrite EQ; reflexivity). rewrite len_app in *. lia.
   - inversion WI as [|? ? WI1 WI']; subst. destruct it as [p|m af ch].
     + (* a packet of another PID is skipped *)
-      destruct WI1 as (Lp & Bp & Np). cbn [ser_items read_pkts].
+      destruct WI1 as (Lp & Bp & Np). cbn [ser_items app read_pkts].
       assert (Hq: pkt_pid p = Ok (pid_of p)).
       { unfold pkt_pid, pid_of. rewrite (idx_nthN p 1), (idx_nthN p 2) by lia. cbn [bind]. f_equal.
         rewrite land31. apply lor_shl8. apply is_bytes_nthN. exact Bp. }
@@ -133,7 +135,7 @@ Proof.
       apply (IH first a A); try assumption.
       * exists n. exact EQ.
       * intros j. exact (CUT (S j)).
-    + cbn [ser_items read_pkts]. cbn [wf_item] in WI1.
+    + cbn [ser_items app read_pkts]. cbn [wf_item] in WI1.
       rewrite (mk_pkt_pid pid first m af ch WI1). cbn [bind]. rewrite N.eqb_refl. cbn [negb].
       cbn [chunks concat] in EQ. rewrite app_assoc in EQ.
       assert (CUT1: len (A ++ ch) < len U -> ~ inner_end c (len (A ++ ch))).
@@ -174,19 +176,38 @@ Proof. induction l as [|it t IH]; intros first W; [constructor|]. inversion W; s
   - destruct H1 as [L _]; exact L.
   - apply mk_pkt_len. assumption. Qed.
 
+Lemma chop188_app : forall pkts fuel t, Forall (fun p => len p = 188) pkts -> (length pkts < fuel)%nat ->
+  chop188 fuel (concat pkts ++ t) = pkts ++ chop188 (fuel - length pkts) t.
+Proof. induction pkts as [|p r IH]; intros fuel t W Hf.
+  - cbn [concat app length]. rewrite Nat.sub_0_r. reflexivity.
+  - destruct fuel as [|fuel]; [cbn in Hf; lia|]. cbn [chop188 concat]. inversion W; subst. rewrite <- app_assoc, len_app.
+    replace (len p + len (concat r ++ t) <? 188) with false by lia.
+    rewrite takeN_app by (symmetry; assumption). rewrite dropN_app by (symmetry; assumption).
+    cbn [app length Nat.sub]. f_equal. apply IH; [assumption|cbn in Hf; lia]. Qed.
+
+(* the stream may continue with ANY bytes after the packets that carry the unit: the reader has returned by then *)
+Theorem read_pmt_then_anything c pid items tail :
+  wf_carrier c -> sstreams (sec c) <> [] ->
+  Forall (wf_item pid) items ->
+  (exists n, concat (chunks items) = ser_unit c ++ repeatN 255 n) ->
+  cuts_ok c items ->
+  read_pmt (packetise pid items ++ tail) pid = Ok (sec_result (sec c)).
+Proof. intros WC NE WI EQ CUT. unfold read_pmt, packetise.
+  pose proof (ser_items_len pid items true WI) as L188.
+  rewrite chop188_app; [|exact L188|].
+  - apply (read_pkts_ok c pid WC NE _ items true new_acc []); try assumption.
+    + left. repeat split.
+    + rewrite len_nil. unfold ser_unit. rewrite !len_app, !len_cons. lia.
+  - assert (forall l : list bytes, Forall (fun p => len p = 188) l -> (length l <= length (concat l))%nat) as CNT.
+    { induction 1 as [|y l Hy _ IHl]; [cbn; lia|]. cbn [concat length]. rewrite app_length. unfold len in Hy. lia. }
+    pose proof (CNT _ L188) as K. rewrite app_length. apply Nat.lt_succ_r. apply Nat.le_trans with (1 := K). apply Nat.le_add_r.
+Qed.
+
 Theorem read_pmt_ok c pid items :
   wf_carrier c -> sstreams (sec c) <> [] ->
   Forall (wf_item pid) items ->
   (exists n, concat (chunks items) = ser_unit c ++ repeatN 255 n) ->
   cuts_ok c items ->
   read_pmt (packetise pid items) pid = Ok (sec_result (sec c)).
-Proof. intros WC NE WI EQ CUT. unfold read_pmt, packetise.
-  pose proof (ser_items_len pid items true WI) as L188.
-  rewrite chop188_concat; [|exact L188|].
-  - apply (read_pkts_ok c pid WC NE items true new_acc []); try assumption.
-    + left. repeat split.
-    + rewrite len_nil. unfold ser_unit. rewrite !len_app, !len_cons. lia.
-  - assert (forall l : list bytes, Forall (fun p => len p = 188) l -> (length l <= length (concat l))%nat) as CNT.
-    { induction 1 as [|y l Hy _ IHl]; [cbn; lia|]. cbn [concat length]. rewrite app_length. unfold len in Hy. lia. }
-    apply Nat.lt_succ_r. exact (CNT _ L188).
-Qed.
+Proof. intros WC NE WI EQ CUT. pose proof (read_pmt_then_anything c pid items [] WC NE WI EQ CUT) as K.
+  rewrite app_nil_r in K. exact K. Qed.
